@@ -148,6 +148,11 @@ func (s *Server) proxyHTTPRoute(c *gin.Context) {
 	}
 
 	s.httpProxy.ServeHTTP(c.Writer, c.Request, endpointID)
+
+	// This is the 'no route' handler, so if the upstream responds with 404 and
+	// an empty body, Gin considers the response unwritten and replaces it
+	// with its own 404 page. Therefore mark the response as written.
+	c.Writer.WriteHeaderNow()
 }
 
 func (s *Server) proxyTCPRoute(c *gin.Context) {
